@@ -163,3 +163,21 @@ Definition agg_chunks_repaired := agg_chunks chunk_partial_repaired mem_stats_re
 Definition agg_chunks_current_reader := agg_chunks chunk_partial_current mem_stats_repaired.   (* before 4c0ceca *)
 Definition agg_chunks_current_mem := agg_chunks chunk_partial_repaired mem_stats_current.      (* before 21620c9 *)
 Definition all_chunk_rows (chunks : list chunk) (memrows : list row) : list row := concat (map chunk_rows chunks) ++ memrows.
+
+(* ---- ORDER BY time DESC ----
+   The aggregate of a (group, bucket) does not depend on the order in which its rows are visited (`_repaired`: agg_rows of
+   the rows in any order, see C09_order_irrelevant / C09_desc_rows_repaired).
+   `_current`, row path (exact-statistics hint, field filter, time bucket): the series-level reducers
+   (engine/series_agg_func.gen.go *FirstReduce / *LastReduce, "last is designed in ascending order") take the first / last
+   ARRIVING value; under DESC the rows arrive newest first, so first and last are swapped.
+   `_current`, shortcut path with GROUP BY tag (the schema forces ascending order only when there is no GROUP BY): every
+   container's partial result (file reader on reversed columns, memtable builder on the reversed record) is positional,
+   i.e. swapped, and the partial results are then merged by time. (The times the real reader attaches under DESC are not
+   modelled; the variant reproduces the values of the witness.) *)
+Definition swap_fl (s : stats) : stats :=
+  {| cnt := cnt s; sum := sum s; smin := smin s; smax := smax s; sfirst := slast s; slast := sfirst s |}.
+Definition agg_rows_desc_current (rows : list row) : stats := swap_fl (agg_rows rows).
+Definition agg_rows_desc_repaired (rows : list row) : stats := agg_rows (rev rows).
+Definition agg_chunks_desc_current (use_pre : bool) (lo hi : Z) (chunks : list chunk) (memrows : list row) : stats :=
+  fold_right (fun c acc => combine (swap_fl (chunk_partial_repaired use_pre lo hi c)) acc)
+             (swap_fl (mem_stats_repaired (filter (in_range lo hi) memrows))) chunks.
